@@ -11,7 +11,7 @@ FRAG = {'order': ['w', 'x'], 'full': {'w': 'weight', 'x': 'chiral'}, 'default': 
         'numeric': {'w'}}
 NUMFORMS_Q = ['sd', 'd.d', 'sd.d', 'ded']
 NUMFORMS_T = ['d', 'sd', 'd.d', 'sd.d', '.d', 'd.', 'dd', 'ded', 'de-d', 'd.dE+d', 'sdesd', 'sdd.dd']
-FREE_KEYS_Q = ['mass', 'p']
+FREE_KEYS_Q = ['mass', 'Mw']      # user-defined symbols are case sensitive
 FREE_KEYS_T = ['mass', 'p', 'kwargs', 'r', 'Q', 'charge', 'weight', 'chiral']
 COLLIDING = {'charge', 'weight', 'chiral'}
 
@@ -89,6 +89,9 @@ class C14(core.Prop):
             for form in (nf[:2] if tier == 'quick' else nf[:6]):
                 out.append({'mode': 'resolve', 'reuse': n, 'numform': form, 'last': 'aa'})
                 out.append({'mode': 'resolve', 'reuse': n, 'numform': form, 'last': 'cg'})
+                # the same through the other constructor: fragments read separately and handed over as graphs
+                out.append({'mode': 'resolve', 'reuse': n, 'numform': form, 'last': 'aa', 'entry': 'dicts'})
+                out.append({'mode': 'resolve', 'reuse': n, 'numform': form, 'last': 'cg', 'entry': 'dicts'})
         return out
 
     # ------------------------------------------------------------------
@@ -164,7 +167,14 @@ class C14(core.Prop):
 
         def run():
             last = shape['last'] == 'aa'
-            meta, mol = M.resolve.MoleculeResolver.from_string(inp['text'], last_all_atom=last).resolve()
+            R = M.resolve.MoleculeResolver
+            if shape.get('entry') == 'dicts':
+                from .. import pipeline as pl
+                base, frag = pl.split_layers(inp['text'])
+                dicts = R.read_fragment_strings([frag], last_all_atom=last)
+                meta, mol = R.from_fragment_dicts(base, dicts, last_all_atom=last).resolve()
+            else:
+                meta, mol = R.from_string(inp['text'], last_all_atom=last).resolve()
             coarse = {k: {a: b for a, b in d.items() if a != 'graph'} for k, d in meta.nodes(data=True)}
             fine = {k: {a: d.get(a) for a in ('fragname', 'mapping', 'weight', 'chiral', 'z', 'element', 'atomname', 'w', 'fragid') if a in d}
                     for k, d in mol.nodes(data=True)}
